@@ -93,12 +93,13 @@ def _corruption(ctx, S):
     """Every single-byte corruption of header / data / checksum (and the length byte) of four block sizes."""
     rng = ctx.rng
     idx = 0
-    for dlen in (0, 1, 243, 244):
-        h = _hdr(rng)
-        data = rng.randbytes(dlen)
+    low = dict(device_id=0, rbit=False, stream=0, wbit=False, function=0, system=0)     # checksum 0x0081: one byte from 0x0000
+    for dlen, h in ((0, _hdr(rng)), (1, _hdr(rng)), (243, _hdr(rng)), (244, _hdr(rng)), (0, low), (1, low)):
+        data = rng.randbytes(dlen) if h is not low else bytes(dlen)
         raw = wire.secs1_block(wire.secs1_header(block=1, ebit=True, **h), data)
         for pos in range(len(raw)):
-            for mask in (sorted({1, 2, 4, 8, 16, 32, 64, 128, 0xFF} | {rng.randint(1, 255) for _ in range(3)}) if ctx.quick else range(1, 256)):
+            # the mask that zeroes the byte is always among them (a zero checksum, length or field is a classic special case)
+            for mask in (sorted({1, 2, 4, 8, 16, 32, 64, 128, 0xFF, raw[pos] or 0xFF} | {rng.randint(1, 255) for _ in range(3)}) if ctx.quick else range(1, 256)):
                 idx += 1
                 if not ctx.mine(idx):
                     continue
@@ -120,6 +121,50 @@ def _corruption(ctx, S):
                     ctx.violation(f"corrupted-block-accepted:{region}", {"data_len": dlen, "position": pos, "mask": mask,
                                                                        "original": raw[:16], "corrupted": bytes(bad)[:16]})
     ctx.exhaustive["single_byte_corruption_of_4_block_sizes"] = True
+    # several bytes altered at once, checksum bytes forced to special values; judged by the reference block parser (an
+    # alteration that happens to leave a consistent block cannot be detected by anybody and is not counted)
+    for i in range(6000 if ctx.quick else 200000):
+        if not ctx.mine(i):
+            continue
+        dlen = rng.choice([0, 1, 2, 10, 243, 244, rng.randint(0, 244)])
+        h = _hdr(rng) if rng.random() < 0.8 else low
+        data = rng.randbytes(dlen) if rng.random() < 0.8 else bytes(dlen)
+        raw = wire.secs1_block(wire.secs1_header(block=rng.choice([1, 2, 255, 0x7FFF]), ebit=rng.random() < 0.5, **h), data)
+        bad = bytearray(raw)
+        for _ in range(rng.randint(1, 3)):
+            pos = rng.randrange(1, len(bad))
+            bad[pos] = rng.choice([0, 0xFF, bad[pos] ^ (1 << rng.randrange(8)), rng.randrange(256)])
+        how = rng.choice(["as-is", "zero", "ffff", "swapped", "low-zero", "high-zero", "sum-of-data-only"])
+        if how == "zero":
+            bad[-2:] = b"\x00\x00"
+        elif how == "ffff":
+            bad[-2:] = b"\xff\xff"
+        elif how == "swapped":
+            bad[-2:] = bytes([bad[-1], bad[-2]])
+        elif how == "low-zero":
+            bad[-1] = 0
+        elif how == "high-zero":
+            bad[-2] = 0
+        elif how == "sum-of-data-only":
+            bad[-2:] = struct.pack(">H", sum(bad[11:-2]) & 0xFFFF)
+        if bytes(bad) == raw:
+            continue
+        if wire.secs1_parse_block(bytes(bad)) is not None:
+            ctx.count("corruption.multi.undetectable_consistent_block")
+            continue
+        ctx.case(("corrupt-multi", bytes(bad)))
+        ctx.count("oracle.corruption_multi")
+        ctx.count(f"corruption.multi.checksum_{how}")
+        try:
+            res = S.SecsIBlock.decode(bytes(bad))
+        except (ValueError, struct.error):
+            continue
+        except Exception as exc:
+            ctx.violation(f"decode-of-corrupted-block-crashes:{type(exc).__name__}", {"corrupted": bytes(bad)[:24], "error": repr(exc)[:200]})
+            continue
+        if res is not None:
+            ctx.violation(f"corrupted-block-accepted:several-bytes:checksum-{how}", {"data_len": dlen, "original": raw[:16], "corrupted": bytes(bad)[:16],
+                                                                                   "checksum_bytes": bytes(bad[-2:]).hex(), "sum_of_payload": hex(sum(bad[1:-2]) & 0xFFFF)})
 
 
 def _block_numbers(ctx, S):
@@ -160,12 +205,19 @@ def _reassembly(ctx, S, nrounds):
     header_only = sorted((f.stream, f.function) for f in secs_streams_functions if f._data_format is None)
     rig = SecsIRig(device_type=secsgem.common.DeviceType.EQUIPMENT)
     sysgen = itertools.count(rng.randint(1, 1 << 30))
+    completed = []        # system bytes of messages this endpoint has already reassembled (a later transaction may reuse them)
     for rnd in range(nrounds):
         k = rng.choice([1, 2, 3, 4])
         msgs = []
         for _ in range(k):
             s, f = rng.choice(header_only)
-            h = dict(device_id=rng.randint(0, 0x7FFF), rbit=False, stream=s, wbit=rng.random() < 0.5, function=f, system=next(sysgen))
+            system = next(sysgen)
+            if completed and rng.random() < 0.25:
+                cand = rng.choice(completed)
+                if cand not in [m[0]["system"] for m in msgs]:
+                    system = cand
+                    ctx.count("reassembly.system_bytes_reused_after_completion")
+            h = dict(device_id=rng.randint(0, 0x7FFF), rbit=False, stream=s, wbit=rng.random() < 0.5, function=f, system=system)
             blen = rng.choice([0, 1, 243, 244, 245, 487, 488, 489, 244 * 3, 244 * 3 + 1, rng.randint(0, 1500)])
             body = rng.randbytes(blen)
             blocks = [wire.secs1_block(wire.secs1_header(**rf), d) for rf, d in
@@ -199,7 +251,10 @@ def _reassembly(ctx, S, nrounds):
                 break
         if not ok:
             rig = SecsIRig(device_type=secsgem.common.DeviceType.EQUIPMENT)
+            completed = []
             continue
+        completed += [m[0]["system"] for m in msgs]
+        del completed[:-12]
         rig.wait(lambda: len(rig.delivered) >= before + k, timeout=5.0)
         got = rig.delivered[before:]
         want = {m[0]["system"]: m for m in msgs}
